@@ -112,6 +112,34 @@ def parseProdsGen (f : Func V P) : Except Err (Dict (T (Node V P))) :=
         | .rebind => [("return", c)]
         | .setKey => Dict.set out "return" c)
 
+/-! ### the `@task(...)` decorator -/
+
+/-- the (parsed) keywords of one `@task(...)` application. -/
+structure DecoArgs (X : Type) where
+  after : X
+  id : X
+  isGenerator : X
+  kwargs : X
+  name : X
+  produces : X
+
+/-- the value a metadata field ends up with in a branch of `task()`'s wrapper: the keyword the branch assigns to it, or what
+was there before (`old`: left by a mark applied earlier / the dataclass default) when the branch does not set the field. -/
+def metaField {X : Type} (branch : List (String × String)) (a : DecoArgs X) (old : X) (field : String) : X :=
+  match (branch.find? (fun kv => kv.1 == field)).map (·.2) with
+  | some "after" => a.after
+  | some "id" => a.id
+  | some "is_generator" => a.isGenerator
+  | some "kwargs" => a.kwargs
+  | some "name" => a.name
+  | some "produces" => a.produces
+  | _ => old
+
+/-- the keyword-carrying fields of `CollectionMetadata` after `@task(...)`. -/
+def metaGen {X : Type} (branch : List (String × String)) (a : DecoArgs X) (old : X) : DecoArgs X :=
+  { after := metaField branch a old "after", id := metaField branch a old "id_", isGenerator := metaField branch a old "is_generator",
+    kwargs := metaField branch a old "kwargs", name := metaField branch a old "name", produces := metaField branch a old "produces" }
+
 /-! ### keyword arguments and the return block -/
 
 /-- the two sources of keyword arguments with their `is_product` flags and parameter guards; on a name clash the
